@@ -1,11 +1,20 @@
 import GoguVerif.Spec.C05
 import GoguVerif.Model.Queue
+import GoguVerif.Model.LQueue
 /-!
 # C05 — property theorems (queues are FIFO)
+
+* `queue_refines`: every history of the model of the slice-backed `Queue` produces exactly the
+  abstract FIFO's answers.
+* `lqueue_refines`: every history of the model of the linked `LQueue` (counter + `list.DList` at
+  sequence level) produces exactly the abstract FIFO's answers (`Dequeue` has no error flag there:
+  answers are compared after `obsLinked`, which erases the flag).
+* the clauses of the property statement as corollaries about the abstract FIFO.
 -/
 namespace GoguVerif.Theorems.C05
 open GoguVerif Spec.C05
 
+set_option linter.unusedSectionVars false
 variable {α : Type} [Inhabited α] [DecidableEq α]
 
 theorem searchLoop_eq_mem (x : α) (l : List α) : Model.Queue.searchLoop x l = decide (x ∈ l) := by
@@ -35,5 +44,141 @@ theorem queue_refines (s : List α) (ops : List (Op α)) :
   induction ops generalizing s with
   | nil => rfl
   | cons op ops ih => simp only [Model.Queue.run, Spec.C05.run, queue_step_refines, ih]
+
+/-! ## Linked queue -/
+
+/-- `LQueue.Dequeue` returns only the value: the emptiness flag of the abstract answer is erased. -/
+def obsLinked : Out α → Out α
+  | .deq v _ => .val v
+  | o => o
+
+/-- abstraction: with `n = 0` the list only holds its placeholder head -/
+def absL (s : Model.LQueue.St α) : List α := if s.n = 0 then [] else s.list
+
+/-- representation invariant: the counter is the length of the abstract queue -/
+def InvL (s : Model.LQueue.St α) : Prop := s.n = (absL s).length
+
+theorem invL_new (t : α) : InvL (Model.LQueue.new t) ∧ absL (Model.LQueue.new t) = [t] := by
+  simp [InvL, absL, Model.LQueue.new, Model.DSeq.init]
+
+/-- One step of the linked queue refines one step of the abstract FIFO. -/
+theorem lqueue_step_refines (s : Model.LQueue.St α) (op : Op α) (h : InvL s) :
+    InvL (Model.LQueue.step s op).1 ∧
+    absL (Model.LQueue.step s op).1 = (Spec.C05.step (absL s) op).1 ∧
+    (Model.LQueue.step s op).2 = obsLinked (Spec.C05.step (absL s) op).2 := by
+  unfold InvL absL at *
+  by_cases h0 : s.n = 0
+  · -- empty queue: the list holds only the placeholder
+    cases op <;>
+      simp [Model.LQueue.step, Spec.C05.step, h0, obsLinked, Model.DSeq.init]
+  · simp only [h0, if_false] at h
+    have hl : s.list ≠ [] := by
+      intro e; rw [e] at h; simp at h; exact h0 h
+    cases op with
+    | enqueue x =>
+      have : s.n + 1 ≠ 0 := by omega
+      simp [Model.LQueue.step, Spec.C05.step, h0, obsLinked, Model.DSeq.append, this]
+      omega
+    | dequeue =>
+      match hs : s.list with
+      | [] => exact absurd hs hl
+      | [x] =>
+        have hn : s.n = 1 := by rw [hs] at h; simpa using h
+        simp [Model.LQueue.step, Spec.C05.step, obsLinked, Model.DSeq.shift, hs, hn]
+      | x :: y :: r =>
+        have hn : s.n = (r.length : Int) + 1 + 1 := by rw [hs] at h; simpa using h
+        have : s.n - 1 ≠ 0 := by omega
+        simp [Model.LQueue.step, Spec.C05.step, h0, obsLinked, Model.DSeq.shift, hs, this]
+        omega
+    | peek =>
+      simp [Model.LQueue.step, Spec.C05.step, h0, obsLinked, Model.DSeq.first]; exact h
+    | search x =>
+      simp [Model.LQueue.step, Spec.C05.step, h0, obsLinked, Model.DSeq.find]; exact h
+    | size =>
+      simp [Model.LQueue.step, Spec.C05.step, h0, obsLinked]; exact h
+    | clear =>
+      simp [Model.LQueue.step, Spec.C05.step, obsLinked]
+
+/-- Every history of the linked queue (started by `NewLinked t`, or from any state satisfying the
+invariant) produces exactly the abstract FIFO's answers. -/
+theorem lqueue_run_refines (s : Model.LQueue.St α) (h : InvL s) (ops : List (Op α)) :
+    (Model.LQueue.run s ops).2 = ((Spec.C05.run (absL s) ops).2).map obsLinked ∧
+    absL (Model.LQueue.run s ops).1 = (Spec.C05.run (absL s) ops).1 ∧
+    InvL (Model.LQueue.run s ops).1 := by
+  induction ops generalizing s with
+  | nil => simp [Model.LQueue.run, Spec.C05.run, h]
+  | cons op ops ih =>
+    obtain ⟨hi, ha, ho⟩ := lqueue_step_refines s op h
+    obtain ⟨r1, r2, r3⟩ := ih _ hi
+    simp only [Model.LQueue.run, Spec.C05.run]
+    rw [ha] at r1 r2
+    exact ⟨by simp [r1, ho], r2, r3⟩
+
+theorem lqueue_refines (t : α) (ops : List (Op α)) :
+    (Model.LQueue.run (Model.LQueue.new t) ops).2 = ((Spec.C05.run [t] ops).2).map obsLinked := by
+  have := (lqueue_run_refines (Model.LQueue.new t) (invL_new t).1 ops).1
+  rwa [(invL_new t).2] at this
+
+/-! ## The clauses of the property, as facts about the abstract FIFO
+
+(by the two refinement theorems they hold of both models for every history) -/
+
+/-- content after a history -/
+def content (s : List α) (ops : List (Op α)) : List α := (Spec.C05.run s ops).1
+
+/-- Dequeue order = enqueue order, each element exactly once: enqueueing `xs` into an empty queue
+and dequeuing `xs.length` times yields exactly `xs`, and leaves the queue empty. -/
+theorem fifo_order (xs : List α) :
+    Spec.C05.run ([] : List α) (xs.map .enqueue ++ List.replicate xs.length .dequeue) =
+      ([], xs.map (fun _ => Out.unit) ++ xs.map (fun x => Out.deq x false)) := by
+  have enq : ∀ (s xs : List α) (rest : List (Op α)),
+      Spec.C05.run s (xs.map .enqueue ++ rest) =
+        ((Spec.C05.run (s ++ xs) rest).1, xs.map (fun _ => Out.unit) ++ (Spec.C05.run (s ++ xs) rest).2) := by
+    intro s xs rest
+    induction xs generalizing s with
+    | nil => simp
+    | cons x xs ih => simp [Spec.C05.run, Spec.C05.step, ih]
+  have deq : ∀ (s : List α),
+      Spec.C05.run s (List.replicate s.length (Op.dequeue : Op α)) = ([], s.map (fun x => Out.deq x false)) := by
+    intro s
+    induction s with
+    | nil => simp [Spec.C05.run]
+    | cons x s ih => simp [List.replicate, Spec.C05.run, Spec.C05.step, ih]
+  rw [enq]; simp [deq]
+
+/-- `Peek` is the element the next `Dequeue` returns (on a non-empty queue), and does not change
+the content. -/
+theorem peek_is_next_dequeue (s : List α) (h : s ≠ []) :
+    ∃ x, (Spec.C05.step s .peek) = (s, .val x) ∧ (Spec.C05.step s .dequeue).2 = .deq x false := by
+  cases s with
+  | nil => exact absurd rfl h
+  | cons x r => exact ⟨x, by simp [Spec.C05.step]⟩
+
+/-- `Dequeue` on an empty queue is a no-op reporting emptiness (zero value). -/
+theorem dequeue_empty : Spec.C05.step ([] : List α) .dequeue = ([], .deq default true) := rfl
+
+/-- `Size` is never negative and equals enqueues − successful dequeues since the last `Clear`:
+stepwise form. -/
+theorem size_step (s : List α) (op : Op α) :
+    ((Spec.C05.step s op).1.length : Int) =
+      match op with
+      | .enqueue _ => (s.length : Int) + 1
+      | .dequeue => if s = [] then 0 else (s.length : Int) - 1
+      | .clear => 0
+      | _ => s.length := by
+  cases op <;> simp [Spec.C05.step]
+  cases s <;> simp
+
+theorem size_nonneg (s : List α) : (Spec.C05.step s .size).2 = .int s.length ∧ (0 : Int) ≤ s.length := by
+  simp [Spec.C05.step]
+
+/-- `Search` agrees with membership. -/
+theorem search_iff (s : List α) (x : α) : (Spec.C05.step s (.search x)).2 = .bool true ↔ x ∈ s := by
+  simp [Spec.C05.step]
+
+/-- non-vacuity: the invariant of the linked queue holds in a non-trivial reachable state -/
+example : InvL (Model.LQueue.run (Model.LQueue.new (7 : Int)) [.enqueue 8, .dequeue, .enqueue 9]).1 ∧
+    (Model.LQueue.run (Model.LQueue.new (7 : Int)) [.enqueue 8, .dequeue, .enqueue 9]).1.list = [8, 9] := by
+  unfold InvL absL; decide
 
 end GoguVerif.Theorems.C05
